@@ -36,9 +36,48 @@ def _flat(body):
     return out
 
 
+def _pure_chain(e: ast.expr) -> bool:
+    """`self.a.b.c` / `name.a.b`: attribute reads only (no call, no subscript) — re-reading it later gives the same object as long as
+    nothing in between assigns one of those attributes (checked by the caller: the method body contains no attribute store)"""
+    while isinstance(e, ast.Attribute):
+        e = e.value
+    return isinstance(e, ast.Name)
+
+
+class _Subst(ast.NodeTransformer):
+    def __init__(self, name, value):
+        self.name, self.value = name, value
+
+    def visit_Name(self, node):
+        return self.value if node.id == self.name and isinstance(node.ctx, ast.Load) else node
+
+
+def _inline_aliases(body: list) -> list:
+    """A local name bound ONCE, at the top level of the body, to a pure attribute chain (`rm = self.simulation._request_manager`,
+    `amap = agent.action_manager.action_map`) is a mere alias: every later read is replaced by the chain and the binding dropped, so
+    that the statements are compared in their alias-free form.  Sound because the body stores to no attribute (refused otherwise)."""
+    if any(isinstance(x, ast.Attribute) and not isinstance(x.ctx, ast.Load) for st in body for x in ast.walk(st)):
+        return body
+    out = list(body)
+    changed = True
+    while changed:
+        changed = False
+        for k, st in enumerate(out):
+            if (isinstance(st, ast.Assign) and len(st.targets) == 1 and isinstance(st.targets[0], ast.Name) and _pure_chain(st.value)
+                    and isinstance(st.value, ast.Attribute)):
+                t = st.targets[0].id
+                stores = sum(1 for s2 in out for x in ast.walk(s2) if isinstance(x, ast.Name) and x.id == t and not isinstance(x.ctx, ast.Load))
+                early = any(isinstance(x, ast.Name) and x.id == t for s2 in out[:k] for x in ast.walk(s2))
+                if stores == 1 and not early:
+                    out = out[:k] + [ast.fix_missing_locations(_Subst(t, st.value).visit(s2)) for s2 in out[k + 1:]]
+                    changed = True
+                    break
+    return out
+
+
 def emit() -> str:
     game = class_def(parse("game/game.py"), "PrimaiteGame")
-    steps = _flat(find_method(game, "action_mask").body)
+    steps = _flat(_inline_aliases(find_method(game, "action_mask").body))
     if steps and steps[0] == "agent = self.agents[agent_name]":
         steps = steps[1:]
     env = class_def(parse("session/environment.py"), "PrimaiteGymEnv")
